@@ -16,7 +16,10 @@ import sys
 import time
 from concurrent.futures import ThreadPoolExecutor
 
+import xv
+
 HERE = os.path.dirname(os.path.dirname(os.path.abspath(__file__)))
+OUT = xv.OUT
 PY = sys.executable
 
 
@@ -150,7 +153,7 @@ def main():
                   f"paths={r.get('paths', 0):5d} q={r.get('queries', 0):6d} z3={r.get('solver_time', 0):7.1f}s wall={r.get('wall', 0):6.1f}s",
                   flush=True)
 
-    os.makedirs(os.path.join(HERE, "replays"), exist_ok=True)
+    os.makedirs(os.path.join(OUT, "replays"), exist_ok=True)
     violations, spurious, errors, samples, witnessed = [], [], [], [], {}
     confirmed, not_exhaustive, vacuous, unwitnessed = [], [], [], []
     per_harness = []
@@ -171,7 +174,7 @@ def main():
                 rec = {"prop": prop, "harness": r["harness"], "part": r.get("part"), "tier": tier,
                        "args": r["call"]["args"], "kwargs": r["call"]["kwargs"], "kf_active": sorted(kf_ids),
                        "message": r["message"]}
-                path = os.path.join(HERE, "replays", f"{prop}-{r['harness']}-{nrep}.json")
+                path = os.path.join(OUT, "replays", f"{prop}-{r['harness']}-{nrep}.json")
                 json.dump(rec, open(path, "w"), indent=1)
                 res, err = run_replay(path)
                 if res is None:
@@ -198,7 +201,7 @@ def main():
     kf_lines, kf_stale = [], []
     for e in kf_open:
         rec = dict(e["witness"], prop=prop, kf_off=True, tier=e["witness"].get("tier", tier))
-        path = os.path.join(HERE, "replays", f"{prop}-kf-{e['id']}.json")
+        path = os.path.join(OUT, "replays", f"{prop}-kf-{e['id']}.json")
         json.dump(rec, open(path, "w"), indent=1)
         res, err = run_replay(path)
         if res is not None and res["ok"] is False:
@@ -209,7 +212,7 @@ def main():
         if "witness" not in e:
             continue
         rec = dict(e["witness"], prop=prop, kf_off=False, tier=e["witness"].get("tier", tier))
-        path = os.path.join(HERE, "replays", f"{prop}-fixed-{e['id']}.json")
+        path = os.path.join(OUT, "replays", f"{prop}-fixed-{e['id']}.json")
         json.dump(rec, open(path, "w"), indent=1)
         res, err = run_replay(path)
         if res is None:
@@ -223,7 +226,7 @@ def main():
     if samples:
         recs = [{"prop": prop, "harness": s["harness"], "part": s["part"], "tier": tier, "args": s["args"],
                  "kf_active": sorted(kf_ids)} for s in samples]
-        path = os.path.join(HERE, "replays", f"{prop}-witnesses.json")
+        path = os.path.join(OUT, "replays", f"{prop}-witnesses.json")
         json.dump(recs, open(path, "w"))
         res, err = run_replay(path, profile=True)
         if res:
@@ -274,9 +277,9 @@ def main():
         "wall_s": round(wall, 2),
         "violations": len(violations),
     }
-    os.makedirs(os.path.join(HERE, "evidence"), exist_ok=True)
+    os.makedirs(os.path.join(OUT, "evidence"), exist_ok=True)
     if not a.only:
-        json.dump(ev, open(os.path.join(HERE, "evidence", f"{prop}.json"), "w"), indent=1, default=str)
+        json.dump(ev, open(os.path.join(OUT, "evidence", f"{prop}.json"), "w"), indent=1, default=str)
 
     for line in kf_lines:
         print(line)
